@@ -54,6 +54,8 @@ def run(tier):
     for ai, first in enumerate(["k", "k + 1", "idx[1]", "twice(k)", "-k", "(k)", "k as i32", "|data| as i32", "3"]):
         infer.append(("agg-after-%d" % ai, AGG + "fn main() -> u8\n{\n\tvar k: i32 = 2;\n\tvar idx: [2]i32 = [5, 7];\n\tvar data: [3]i32 = [4, 6, 8];\n\tvar rect = R { w: 3, h: 4 };\n"
                       "\tvar c: i32 = weighted(%s, data);\n\tvar d: i32 = area(%s, rect, %s);\n\tprint!(c, \" \", d, \"\\n\");\n\treturn: 0\n}\n" % (first, first, first), None))
+    infer.append(("mixed-array", "fn sum(v: []i32) -> i32\n{\n\treturn: v[0] + v[1]\n}\nfn main() -> u8\n{\n\tvar x: i32 = 7;\n\tvar y: i32 = 9;\n\tvar a: [4]i32 = [1, x, 2, y];\n\tvar b: [3]i32 = [x, y, 3];\n"
+                  "\tvar grid: [2][2]i32 = [[10, 20], [x, 30]];\n\tvar c: [5]i32 = [1, 2, x, 4, y];\n\tprint!(a[0], a[1], a[2], a[3], \" \", b[0], b[1], b[2], \" \", grid[0][0], grid[0][1], grid[1][0], grid[1][1], \" \", c[0], c[1], c[2], c[3], c[4], \" \", sum([100, x + y]), \"\\n\");\n\treturn: 0\n}\n", "1729 793 1020730 12749 116"))
     iimpl = C.run_harness("exec", [(a, b) for a, b, _ in infer], ck.work + "/infer", timeout=600)
     ibad = 0
     for cid, src, want in infer:
